@@ -262,6 +262,27 @@ for _k in DATA_KINDS + ["tenmat", "sptenmat"]:
             return f"{kind_}.__neg__", operator.neg, (X,), {}
     _mk(_k)
 
+# ------------------------------------------------------------------ observers --------------------
+# printing and the read-only properties observe an object: they change nothing and hand out nothing the object depends on
+for _k in DATA_KINDS + ["tenmat", "sptenmat"]:
+    def _mk_obs(kind_):
+        @entry(f"{kind_}.__repr__", ALLN)
+        def _a(e, kind_=kind_):
+            return f"{kind_}.__repr__", repr, (e.holder(kind_),), {}
+
+        @entry(f"{kind_}.__str__", (2, 3))
+        def _b(e, kind_=kind_):
+            return f"{kind_}.__str__", str, (e.holder(kind_),), {}
+
+        for prop_ in ("shape", "ndims", "order", "nnz", "ncomponents", "tshape"):
+            @entry(f"{kind_}.{prop_}", (2, 3))
+            def _c(e, kind_=kind_, prop_=prop_):
+                X = e.holder(kind_)
+                if not hasattr(type(X), prop_) and not hasattr(X, prop_):
+                    return None
+                return f"{kind_}.{prop_}", getattr, (X, prop_), {}
+    _mk_obs(_k)
+
 # ------------------------------------------------------------------ conversions -----------------
 for _k in DATA_KINDS:
     def _mk2(kind_):
